@@ -50,6 +50,9 @@ type LogDS struct {
 	// OnWrite, when set, is called (outside the lock) before each write attempt with its
 	// number and kind; used by harnesses that want to act at write boundaries.
 	OnWrite func(n int, kind string)
+	// OnOp, when set, is called at the start of every datastore operation (read or write);
+	// the schedule explorer makes these scheduling points.
+	OnOp func(kind string)
 }
 
 func NewLogDS() *LogDS {
@@ -84,7 +87,14 @@ func (d *LogDS) FailWrites(from, n int) {
 
 func (d *LogDS) Writes() int { d.mu.Lock(); defer d.mu.Unlock(); return d.writes }
 
+func (d *LogDS) op(kind string) {
+	if f := d.OnOp; f != nil {
+		f(kind)
+	}
+}
+
 func (d *LogDS) attempt(kind string) error {
+	d.op(kind)
 	d.mu.Lock()
 	n := d.writes
 	d.writes++
@@ -132,6 +142,7 @@ func (d *LogDS) Delete(ctx context.Context, key datastore.Key) error {
 }
 
 func (d *LogDS) Get(ctx context.Context, key datastore.Key) ([]byte, error) {
+	d.op("get")
 	d.mu.Lock()
 	defer d.mu.Unlock()
 	d.Reads++
@@ -143,6 +154,7 @@ func (d *LogDS) Get(ctx context.Context, key datastore.Key) ([]byte, error) {
 }
 
 func (d *LogDS) Has(ctx context.Context, key datastore.Key) (bool, error) {
+	d.op("has")
 	d.mu.Lock()
 	defer d.mu.Unlock()
 	d.Reads++
